@@ -433,7 +433,17 @@ class Responder():
                     self.evented = True
 
         self.started = True
-        return self.write
+        return self.put
+
+
+    def put(self, msg):
+        """
+        WSGI write callable returned by start_response.
+        Ignores empty msg. When chunked an empty msg would be sent as the
+        zero size chunk that terminates the body.
+        """
+        if msg:
+            self.write(msg)
 
 
     def service(self):
